@@ -43,10 +43,17 @@ def flatten(chain: list, data: dict) -> str:
 
     active: list = []
 
+    def blank_item(x) -> bool:
+        if x[0] == "text":
+            return not x[1].strip()
+        if x[0] == "loop":  # a loop whose own body is blank (or empty) is blank too
+            return all(blank_item(y) for y in x[1])
+        return False  # output statements, and block tags whatever they hold
+
     def blank(items) -> bool:
-        # the body of a control-flow or block tag that holds nothing but whitespace text renders nothing
-        # (Environment.suppress_blank_control_flow_blocks, on by default); a block tag itself is never blank
-        return bool(items) and all(x[0] == "text" and not x[1].strip() for x in items)
+        # the body of a control-flow or block tag that holds nothing but whitespace text (and blank loops) renders
+        # nothing (Environment.suppress_blank_control_flow_blocks, on by default); a block tag itself is never blank
+        return bool(items) and all(blank_item(x) for x in items)
 
     def render(items, env: dict, name=None, k: int = 0, body: bool = False) -> str:
         if body and blank(items):
